@@ -222,6 +222,14 @@ class AsyncApi:
             h.closed = True
             await h.cm.__aexit__(None, None, None)
 
+    async def exit(self, h, exc):
+        """Leave the `async with pool.stream()` block with an exception."""
+        try:
+            await h.cm.__aexit__(type(exc), exc, exc.__traceback__)
+        except BaseException as e2:  # noqa: BLE001
+            if e2 is not exc:
+                raise
+
     async def sleep(self, d):
         from .aloop import sleep_until
 
@@ -279,6 +287,13 @@ class SyncApi:
             h.closed = True
             h.cm.__exit__(None, None, None)
 
+    async def exit(self, h, exc):
+        try:
+            h.cm.__exit__(type(exc), exc, exc.__traceback__)
+        except BaseException as e2:  # noqa: BLE001
+            if e2 is not exc:
+                raise
+
     async def sleep(self, d):
         self.world.executor.sleep(d)
 
@@ -315,6 +330,37 @@ def exc_record(e):
     mod = cls.__module__
     return {"exc": cls.__name__, "mod": mod, "msg": str(e)[:200],
             "documented": isinstance(e, documented_exceptions())}
+
+
+async def _consume(api, world, name, token, h, consume, out):
+    if isinstance(consume, dict) and "hold" in consume:
+        await api.sleep(consume["hold"])
+    if isinstance(consume, dict) and "upgrade" in consume:
+        got = []
+        out["net_reads"] = got
+        for step in consume["upgrade"]:
+            if "read" in step:
+                d = await api.net_read(h, step["read"], step.get("timeout"))
+                got.append(d)
+                world.log("net_read", name, token, step["read"], d)
+            elif "write" in step:
+                await api.net_write(h, _b(step["write"]))
+    elif consume == "close":
+        pass
+    else:
+        limit = consume.get("chunks") if isinstance(consume, dict) else None
+        chunks = []
+        n = 0
+        while limit is None or n < limit:
+            c = await api.next_chunk(h)
+            if c is None:
+                out["complete"] = True
+                break
+            chunks.append(c)
+            n += 1
+            out["body"] = b"".join(chunks)
+            if isinstance(consume, dict) and consume.get("slow"):
+                await api.sleep(consume["slow"])
 
 
 async def do_request(api, world, name, oi, op):
@@ -364,34 +410,14 @@ async def do_request(api, world, name, oi, op):
                         if k in ("http_version", "reason_phrase", "stream_id")},
                    body=b"", complete=False, phase="head")
         world.log("head", name, token, resp.status)
-        if isinstance(consume, dict) and "hold" in consume:
-            await api.sleep(consume["hold"])
-        if isinstance(consume, dict) and "upgrade" in consume:
-            got = []
-            for step in consume["upgrade"]:
-                if "read" in step:
-                    d = await api.net_read(h, step["read"], step.get("timeout"))
-                    got.append(d)
-                    world.log("net_read", name, token, step["read"], d)
-                elif "write" in step:
-                    await api.net_write(h, _b(step["write"]))
-            out["net_reads"] = got
-        elif consume == "close":
-            pass
-        else:
-            limit = consume.get("chunks") if isinstance(consume, dict) else None
-            chunks = []
-            n = 0
-            while limit is None or n < limit:
-                c = await api.next_chunk(h)
-                if c is None:
-                    out["complete"] = True
-                    break
-                chunks.append(c)
-                n += 1
-                out["body"] = b"".join(chunks)
-                if isinstance(consume, dict) and consume.get("slow"):
-                    await api.sleep(consume["slow"])
+        # from here on the caller behaves like `with pool.stream(...) as response:`
+        try:
+            await _consume(api, world, name, token, h, consume, out)
+        except BaseException as e:
+            h.closed = True
+            out["phase_at_exit"] = out["phase"]
+            await api.exit(h, e)
+            raise
         out["phase"] = "closing"
         await api.close(h)
         out["phase"] = "done"
@@ -403,13 +429,6 @@ async def do_request(api, world, name, oi, op):
         out["failed_phase"] = out["phase"]
         out["phase"] = "failed"
         world.log("exc", name, token, out["exc"], out["mod"])
-        if h is not None and not h.closed:
-            try:
-                await api.close(h)
-            except SimAbort:
-                raise
-            except Exception as e2:
-                out["close_exc"] = exc_record(e2)
     except BaseException as e:
         # cancellation
         out["cancelled"] = type(e).__name__
